@@ -144,6 +144,7 @@ type S3Interface interface {
 
 // Open returns a database. 'when' marks the creation time of the new version.
 func Open(ctx context.Context, S3 S3Interface, cfg Config, opts OpenOptions, when time.Time) (*DB, error) {
+	when = verifWhen(cfg, when)
 	if !opts.ReadOnly && len(opts.OnlyVersions) > 0 {
 		return nil, fmt.Errorf("opts.OnlyVersions requires opts.ReadOnly")
 	}
@@ -330,6 +331,7 @@ func mergeRoots(
 	rand.Shuffle(len(roots), func(i, j int) {
 		roots[i], roots[j] = roots[j], roots[i]
 	})
+	roots = verifPermuteRoots(cfg, roots)
 
 	mergedRoots := make(map[string][]byte, len(roots))
 	var tree *crdt.Tree
